@@ -7,10 +7,11 @@ VARIABLE v
 Names == ScenNames(U)
 SomeSets == {{}, {"S1"}, {"S2", "S4"}, {"S1", "S3", "S5"}, Names}
 \* A: every expression of depth <= 2 as --tags (closure accepts everything)
-VecA == {[useRe |-> FALSE, reSet |-> {}, useTags |-> TRUE, expr |-> e, closure |-> Names] : e \in Depth2}
+VecA == {[useRe |-> FALSE, reSet |-> {}, useTags |-> TRUE, expr |-> e, closure |-> Names, dup |-> d]
+          : e \in Depth2, d \in BOOLEAN}
 \* B: the 2^3 presence combinations x name sets x closure sets, two expressions
-VecB == {[useRe |-> ur, reSet |-> rs, useTags |-> ut, expr |-> e, closure |-> cl]
-          : ur \in BOOLEAN, ut \in BOOLEAN, rs \in SomeSets, cl \in SomeSets,
+VecB == {[useRe |-> ur, reSet |-> rs, useTags |-> ut, expr |-> e, closure |-> cl, dup |-> d]
+          : ur \in BOOLEAN, ut \in BOOLEAN, rs \in SomeSets, cl \in SomeSets, d \in BOOLEAN,
             e \in {And(Tag("a"), Not(Tag("b"))), Or(Tag("c"), Tag("b"))}}
 Vectors == CASE Group = "A" -> VecA [] Group = "B" -> VecB
 Init == v \in Vectors
